@@ -1122,4 +1122,10 @@ var tlbExec = map[string]h.ExecFn{
 	"go.tlb.fuzz": goTLBFuzz,
 	"go.tlb.one":  goTLBOne,
 	"go.abi.dec":  goABIDec,
+	// modelled custom decoders (compared with lean/TongoModel/TlbRead.lean)
+	"tlb.label":      exTLBLabel,
+	"tlb.countleafs": exTLBCountLeafs,
+	"tlb.snake":      exTLBSnake,
+	"tlb.bintree":    exTLBBinTree,
+	"tlb.hashmap":    exTLBHashmap,
 }
